@@ -36,7 +36,10 @@ func c13Extras(variant int, withError bool) srcFile {
 	extraTemplates := ""
 	if withError {
 		// error texts that list several names: the order of the names is part of the text
-		switch variant % 8 {
+		switch variant % 10 {
+		case 8, 9:
+			// an undefined global whose name is equally close to several defined ones (verif.COLOR_n, verif.SIZE_x)
+			b.WriteString("{verif.COLOR_3}{verif.SIZE_M}\n")
 		case 0:
 			b.WriteString("{call .need}{param p: ['delta': 4, 'alpha': 1, 'charlie': 3, 'bravo': 2] /}{/call}\n") // required q missing
 		case 1:
@@ -189,8 +192,15 @@ func c13Program(seed uint64, tier string) (files []srcFile, prog *gen.Program, h
 	g.O.Msgs, g.O.Globals = true, true
 	prog = g.Bundle(1+r.Intn(3), 2+r.Intn(4))
 	hasErr = r.P(1, 3)
-	variant := r.Intn(11)
-	if hasErr && variant >= 8 {
+	variant := r.Intn(13)
+	// globals that differ in one character (an error text that offers 'the nearest name' must always offer the same one)
+	if prog.B.Globals == nil {
+		prog.B.Globals = map[string]ref.Value{}
+	}
+	for k, v := range map[string]ref.Value{"verif.COLOR_1": ref.Int(1), "verif.COLOR_2": ref.Int(2), "verif.COLOR_4": ref.Int(4), "verif.COLOR_5": ref.Int(5), "verif.SIZE_S": ref.Str("s"), "verif.SIZE_L": ref.Str("l"), "verif.SIZE_X": ref.Str("x")} {
+		prog.B.Globals[k] = v
+	}
+	if hasErr && variant >= 10 {
 		// one injected rule violation in the generated part
 		kinds := []string{"undeclared-name", "unused-let", "unknown-callee", "undeclared-call-param"}
 		ok, _ := inject(prog.B, kinds[r.Intn(len(kinds))], r.Intn(3))
